@@ -805,6 +805,18 @@ func vsRunRT(res *vResult, bi, si int, c *vsCase, raw json.RawMessage) {
 		panic("VERIF-INFRA bad enc")
 	}
 	val, err := vsBuild(t, c.O.V)
+	if err != nil && strings.Contains(err.Error(), "Result.Set:") {
+		// the value of the specification cannot even be PUT into the package's Result: that is the package refusing a value of
+		// the declared case type (an Ok(None), an Ok(empty vector)), not a harness problem; the canonical bytes must still decode
+		res.Cmp()
+		res.Fail(bi, si, "rt", "Result.Set", "accepted: the payload is a value of the declared case type", err.Error(), "C11/encode/result-set-refuses-value", raw)
+		d := vsDecode(t, exp)
+		res.Cmp()
+		if d.panicMsg != "" || d.err != nil || d.timeout {
+			res.Fail(bi, si, "rt", "Unmarshal", "the value", fmt.Sprintf("err=%v panic=%s timeout=%v", d.err, d.panicMsg, d.timeout), "C11/decode/error/result-payload-refused", raw)
+		}
+		return
+	}
 	if err != nil {
 		panic(fmt.Sprintf("VERIF-INFRA cannot build %s from %s: %v", t, c.O.V, err))
 	}
@@ -927,6 +939,14 @@ func vsRunDec(res *vResult, bi, si int, c *vsCase, raw json.RawMessage) {
 	specV := "reject(" + c.Res.At + "/" + c.Res.Why + ")"
 	if c.Res.Ok {
 		ev, err := vsBuild(t, c.Res.V)
+		if err != nil && strings.Contains(err.Error(), "Result.Set:") {
+			// the expected value cannot be put into the package's Result (see vsRunRT); the decoder must still accept the bytes
+			res.Cmp()
+			if d.panicMsg != "" || d.err != nil || d.timeout {
+				res.Fail(bi, si, "dec", "Unmarshal", "accept n="+fmt.Sprint(c.Res.N), fmt.Sprintf("err=%v panic=%s timeout=%v", d.err, d.panicMsg, d.timeout), "C12/rejects-valid/result-payload-refused", raw)
+			}
+			return
+		}
 		if err != nil {
 			panic(fmt.Sprintf("VERIF-INFRA cannot build %s from %s: %v", t, c.Res.V, err))
 		}
